@@ -232,6 +232,19 @@ Example C10_quota_example :
     = LR_ok [(K 2%positive, 1%Z); (K 1%positive, 2%Z); (KT [4%positive; 3%positive], 1%Z)].
 Proof. vm_compute. repeat split; reflexivity. Qed.
 
+(* non-vacuity of the continued subtraction (the Tie object as a key of `selected`): with two seats to withdraw the
+   tie key is entered and then withdrawn again; a three-way tie *)
+Example C10_quota_example_tie_key :
+  qd_evaluate (quota_fn (QNamed 7)) true PSubtract [(1%positive, 30#1); (2%positive, 30#1); (3%positive, 7#1)]%Q 2 [] []
+    = QD_ok [(K 1%positive, 1%Z); (K 2%positive, 1%Z)] /\
+  qd_evaluate (quota_fn (QNamed 7)) true PSubtract [(3%positive, 7#1); (2%positive, 30#1); (1%positive, 30#1)]%Q 2 [] []
+    = QD_ok [(K 2%positive, 1%Z); (K 1%positive, 1%Z)] /\
+  qd_evaluate (quota_fn (QNamed 7)) true PSubtract [(1%positive, 30#1); (2%positive, 30#1); (3%positive, 30#1)]%Q 4 [] []
+    = QD_ok [(K 1%positive, 1%Z); (K 2%positive, 1%Z); (K 3%positive, 1%Z); (KT [1%positive; 2%positive; 3%positive], 1%Z)] /\
+  qd_evaluate (quota_fn (QNamed 7)) true PSubtract [(3%positive, 30#1); (2%positive, 30#1); (1%positive, 30#1)]%Q 4 [] []
+    = QD_ok [(K 3%positive, 1%Z); (K 2%positive, 1%Z); (K 1%positive, 1%Z); (KT [3%positive; 2%positive; 1%positive], 1%Z)].
+Proof. vm_compute. repeat split; reflexivity. Qed.
+
 (* ---- the transferable-vote count (STV with Gregory transfers, TransferableVoteDistributor / Selector: quota election,
    over-count correction, surplus transfer, elimination by get_n_best, the elect-all-remaining shortcut, the fixpoint
    stop): presenting the ballots (and the previous gains) in another order gives the same stop reason, the same seats
